@@ -5,6 +5,7 @@ import (
 	"encoding/base64"
 
 	p2pcrypto "github.com/libp2p/go-libp2p/core/crypto"
+	"golang.org/x/crypto/curve25519"
 	"golang.org/x/crypto/nacl/box"
 
 	"berty.tech/weshnet/v2/pkg/cryptoutil"
@@ -18,6 +19,10 @@ var (
 	nonceRequesterAuthenticate = [cryptoutil.NonceSize]byte{1}
 	nonceResponderAccept       = [cryptoutil.NonceSize]byte{2}
 )
+
+// lowOrderCheckScalar is only used to detect low order points, X25519 fails
+// on them whatever the scalar is
+var lowOrderCheckScalar = [cryptoutil.KeySize]byte{1}
 
 // Common struct and methods
 type handshakeContext struct {
@@ -91,6 +96,12 @@ func (hc *handshakeContext) receivePeerEphemeralPubKey() error {
 	hc.peerEphemeral, err = cryptoutil.KeySliceToArray(hello.EphemeralPubKey)
 	if err != nil {
 		return errcode.ErrCode_ErrSerialization.Wrap(err)
+	}
+
+	// Refuse low order points: the shared secret would be the same constant
+	// for every session, so a proof signed over it could be replayed
+	if _, err := curve25519.X25519(lowOrderCheckScalar[:], hc.peerEphemeral[:]); err != nil {
+		return errcode.ErrCode_ErrInvalidInput.Wrap(err)
 	}
 
 	return nil
